@@ -506,8 +506,10 @@ def produce(case):
                 except Exception as e:  # noqa: BLE001
                     extra["again"] = e
             return body, ctype, extra
-        rec = _Recorder(headers=dict(POOL_HEADERS))
         hk = case.get("hdrs", "none")
+        # "empty": the caller passes headers={} (not None) to an object whose DEFAULT headers carry a Content-Type:
+        # an explicitly empty mapping is still the caller's choice - the defaults stay out, the content type is the encoder's
+        rec = _Recorder(headers=dict(POOL_HEADERS, **({"Content-Type": "application/x-pool-default"} if hk == "empty" else {})))
         if hk == "xhd":
             # the caller's own HTTPHeaderDict, used for TWO requests with different boundaries: what is judged is
             # the second one (a Content-Type written into the caller's object by the first call would name the
@@ -520,6 +522,8 @@ def produce(case):
             else:
                 rec.request("post", URL, fields=fields, headers=hdrs, multipart_boundary=first)
             del rec.calls[:]
+        elif hk == "empty":
+            hdrs = {}
         else:
             hdrs = HDR_KINDS[hk]
             hdrs = dict(hdrs) if hdrs is not None else None
@@ -558,7 +562,7 @@ def evaluate(case):
         hd = calls[0]["headers"]
         cts = [v for k, v in (hd.items() if hd is not None else []) if k.lower() == "content-type"]
         kind = case.get("hdrs", "none")
-        keep = POOL_HEADERS if kind == "none" else {"X-A": "1"}  # ("x", "uct" and "xhd" all carry X-A)
+        keep = POOL_HEADERS if kind == "none" else ({} if kind == "empty" else {"X-A": "1"})  # ("x", "uct" and "xhd" all carry X-A)
         kept = {k: v for k, v in (hd.items() if hd is not None else []) if k.lower() != "content-type"}
         if kept != keep:
             pre.append(("reb-passthrough", dict(base, hdrs=kind), kept, keep))
@@ -831,7 +835,7 @@ def fam_f5(tuples, acc, local):
         if dict_ok(specs):
             run_case(_one(specs, container="dict", boundary=None, route="request", hdrs="none"), acc, cnt)
         for route, b, hk in (("reb", EXPLICIT, "none"), ("reb", None, "x"), ("reb", EXPLICIT, "uct"), ("request", EXPLICIT, "uct"),
-                             ("reb", EXPLICIT, "xhd"), ("request", None, "xhd")):
+                             ("reb", EXPLICIT, "xhd"), ("request", None, "xhd"), ("reb", EXPLICIT, "empty"), ("request", None, "empty")):
             run_case(_one(specs, container="list", boundary=b, route=route, hdrs=hk), acc, cnt)
 
 
